@@ -41,6 +41,12 @@ fn mode_name(i: usize) -> String {
 
 /// PAR text of a scanner configuration of Scanner.tla's catalogue
 pub fn render_par(def: &Value, lr: bool) -> String {
+    render_par_ext(def, lr, false)
+}
+
+/// `split`: a terminal that lives in several scanner states is written at two places with different
+/// state lists (the later occurrence adds the LOWER numbered states), so that parol has to unite them
+pub fn render_par_ext(def: &Value, lr: bool, split: bool) -> String {
     let terms = def["terms"].as_array().unwrap();
     let modes = def["modes"].as_array().unwrap();
     let mut s = String::from("%start S\n%title \"t\"\n%comment \"c\"\n");
@@ -81,10 +87,28 @@ pub fn render_par(def: &Value, lr: bool) -> String {
     for (i, m) in modes.iter().enumerate().skip(1) {
         s.push_str(&format!("%scanner {} {{\n{}}}\n", mode_name(i + 1), directives(m)));
     }
+    // terminals named by %on / %skip directives must keep their full state list at the primary non-terminal
+    let mut pinned: Vec<u64> = vec![];
+    for m in modes {
+        for t in m["skip"].as_array().unwrap() {
+            pinned.push(t.as_u64().unwrap() - 4);
+        }
+        for t in m["trans"].as_array().unwrap() {
+            pinned.push(t["ty"].as_u64().unwrap() - 4);
+        }
+    }
+    let splittable = |i: usize, t: &Value| split && t["states"].as_array().unwrap().len() >= 2 && !pinned.contains(&((i + 1) as u64)) && t["pat"]["k"] == "lit";
     s.push_str("%%\nS: {");
     for i in 0..terms.len() {
         s.push_str(if i == 0 { " " } else { " | " });
         s.push_str(&format!("T{}", i + 1));
+    }
+    if split {
+        for (i, t) in terms.iter().enumerate() {
+            if splittable(i, t) {
+                s.push_str(&format!(" | P{}", i + 1));
+            }
+        }
     }
     s.push_str(" };\n");
     for (i, t) in terms.iter().enumerate() {
@@ -103,7 +127,25 @@ pub fn render_par(def: &Value, lr: bool) -> String {
             "neg" => format!(" ?! '{}'", chars(&t["las"])),
             _ => String::new(),
         };
-        s.push_str(&format!("T{}: <{}>{}{};\n", i + 1, states.join(", "), pat, la));
+        if splittable(i, t) {
+            s.push_str(&format!("T{}: <{}>{}{};\n", i + 1, states[states.len() - 1], pat, la));
+        } else {
+            s.push_str(&format!("T{}: <{}>{}{};\n", i + 1, states.join(", "), pat, la));
+        }
+    }
+    if split {
+        for (i, t) in terms.iter().enumerate() {
+            let states: Vec<String> = t["states"].as_array().unwrap().iter().map(|m| mode_name(m.as_u64().unwrap() as usize)).collect();
+            if splittable(i, t) {
+                let pat = format!("'{}'", chars(&t["pat"]["s"]));
+                let la = match t["la"].as_str().unwrap() {
+                    "pos" => format!(" ?= '{}'", chars(&t["las"])),
+                    "neg" => format!(" ?! '{}'", chars(&t["las"])),
+                    _ => String::new(),
+                };
+                s.push_str(&format!("P{}: <{}>{}{} T{};\n", i + 1, states[..states.len() - 1].join(", "), pat, la, i + 1));
+            }
+        }
     }
     s
 }
@@ -113,18 +155,23 @@ thread_local! {
 }
 
 pub fn tables_for(id: &str, lr: bool) -> Result<Rc<Tables>, String> {
+    tables_for_ext(id, lr, false)
+}
+
+pub fn tables_for_ext(id: &str, lr: bool, split: bool) -> Result<Rc<Tables>, String> {
     CACHE.with(|c| {
         let mut c = c.borrow_mut();
-        if let Some(t) = c.get(&(id.to_string(), lr)) {
+        let key = (format!("{id}{}", if split { "/split" } else { "" }), lr);
+        if let Some(t) = c.get(&key) {
             return t.clone().ok_or_else(|| "scanner configuration was rejected before".to_string());
         }
         let def = defs().get(id).ok_or_else(|| format!("no definition for configuration {id}"))?;
-        let par = render_par(def, lr);
+        let par = render_par_ext(def, lr, split);
         let r = match dynrt::build(&par, 3) {
             Ok(b) => dynrt::tables_from_source(&b.parser_source).map(Rc::new).map_err(|e| format!("{e:#}\n{par}")),
             Err(e) => Err(format!("{} stage: {:#}\n{par}", e.stage.name(), e.err)),
         };
-        c.insert((id.to_string(), lr), r.as_ref().ok().cloned());
+        c.insert(key, r.as_ref().ok().cloned());
         r
     })
 }
@@ -216,6 +263,33 @@ pub fn replay(v: &Value) -> Outcome {
         }
     }
     let ks: &[usize] = if fields == "pos" { &[1] } else { &[1, 2, 3] };
+    // the same scanner written with terminals split over several occurrences (LALR(1) so that the
+    // grammar's conflicts do not matter); only built when some terminal lives in two states
+    let split_tables = if fields == "tok" && defs()[id]["terms"].as_array().unwrap().iter().any(|t| t["states"].as_array().unwrap().len() >= 2) {
+        match tables_for_ext(id, true, true) {
+            Ok(t) => Some(t),
+            Err(_) => {
+                o.tag("split_variant_rejected");
+                None
+            }
+        }
+    } else {
+        None
+    };
+    if let Some(st) = &split_tables {
+        o.evals += 1;
+        match std::panic::catch_unwind(std::panic::AssertUnwindSafe(|| dynrt::tokenize(st, &text, 1, 0))) {
+            Ok(Ok(got)) => {
+                let proj: Vec<Value> = got.iter().map(|t| json!({"ty": t["ty"], "s": t["s"], "e": t["e"], "skip": t["skip"]})).collect();
+                if proj != exp {
+                    let i = (0..exp.len().max(proj.len())).find(|i| exp.get(*i) != proj.get(*i)).unwrap();
+                    o.mismatch("tokens-split-occurrences", json!({"index": i, "token": exp.get(i), "text": text}), json!(proj.get(i)));
+                }
+            }
+            Ok(Err(e)) => o.mismatch("tokenize-split-occurrences", json!(exp), json!(format!("error: {e:#}"))),
+            Err(e) => o.mismatch("tokenize-panic-split", json!("no panic"), json!(crate::panic_msg(e))),
+        }
+    }
     for &k in ks {
         for schedule in 0..3u8 {
             if fields == "pos" && schedule > 0 {
